@@ -66,12 +66,20 @@ type Case struct {
 	CL     int       `json:"cl"`     // response modes: Content-Length set by the handler (-1 none)
 	WH     string    `json:"wh"`     // response modes: handler calls WriteHeader: no | first | last
 	Status int       `json:"status"`
-	Sum    bool      `json:"sum"`     // emit a flat fault record (C14)
-	Enum   string    `json:"enum"`    // "", "sink", "src", "both": expand over fault positions (C14)
-	Stride int       `json:"stride"`  // enumeration stride for long inputs (<=1: every position)
-	Small  int       `json:"small"`   // byte payloads are recorded when input and output are at most this long
+	Sum    bool      `json:"sum"`    // emit a flat fault record (C14)
+	Enum   string    `json:"enum"`   // "", "sink", "src", "both": expand over fault positions (C14)
+	Stride int       `json:"stride"` // enumeration stride for long inputs (<=1: every position)
+	Small  int       `json:"small"`  // byte payloads are recorded when input and output are at most this long
 	Tag    string    `json:"tag"`
-	After  bool      `json:"after"` // after Close: one more Write, then Close again (writer; response with a minifier)
+	After  bool      `json:"after"`  // after Close: one more Write, then Close again (writer; response with a minifier)
+	Pre    []PreCall `json:"pre"`    // bytes/string: helper calls made before the call that is judged (call history)
+	WShape string    `json:"wshape"` // method set of the sink double: "" (Write only) | bytes | stringwriter | readfrom | response | all
+}
+
+type PreCall struct {
+	Mode string    `json:"mode"`
+	MT   string    `json:"mt"`
+	In   lib.Bytes `json:"in"`
 }
 
 type Ev struct {
@@ -127,13 +135,14 @@ type Fault struct {
 	Short   bool     `json:"short"`
 	SErr    string   `json:"serr"`
 	FF      int      `json:"ff"`
+	WShape  string   `json:"wshape"`
 	Chunks  []int    `json:"chunks"`
 	RHit    bool     `json:"rhit"`   // the source double returned its error at least once
 	WHit    bool     `json:"whit"`   // the sink double returned its error at least once
 	NReads  int      `json:"nreads"` // calls seen by the source double
 	NWrites int      `json:"nwrites"`
-	Res     []string `json:"res"`    // error classes surfaced to the caller (Ret; Write*/Close; final Read)
-	Ret     string   `json:"ret"`    // class of the call's own result (plain: return value; writer: Close; reader: final Read)
+	Res     []string `json:"res"` // error classes surfaced to the caller (Ret; Write*/Close; final Read)
+	Ret     string   `json:"ret"` // class of the call's own result (plain: return value; writer: Close; reader: final Read)
 	RetT    string   `json:"rett"`
 	Closed  bool     `json:"closed"` // the call (Close, for the writer wrapper) returned
 	DelN    int      `json:"deln"`
@@ -246,6 +255,7 @@ type sink struct {
 	hit     bool
 	h       hash.Hash
 	n       int
+	acc     []byte
 	gateOn  bool
 	gate    chan struct{}
 	arrived chan struct{}
@@ -280,12 +290,82 @@ func (k *sink) Write(p []byte) (int, error) {
 	}
 	k.h.Write(p)
 	k.n += len(p)
+	k.acc = append(k.acc, p...)
 	e := Ev{K: "SinkWrite", N: len(p), E: "nil", T: hx(k.h)}
 	if k.s.small {
 		e.B = append(lib.Bytes{}, p...)
 	}
 	k.s.ev = append(k.s.ev, e)
 	return len(p), nil
+}
+
+// sink doubles with richer method sets: minifiers and parse may duck-type the writer they are given (Bytes(),
+// WriteString, ReadFrom, ...).  Every method goes through the same fault logic as Write.
+func (k *sink) accepted() []byte {
+	k.s.mu.Lock()
+	defer k.s.mu.Unlock()
+	return append([]byte{}, k.acc...)
+}
+
+type sinkBytes struct{ *sink }
+
+func (k sinkBytes) Bytes() []byte  { return k.accepted() }
+func (k sinkBytes) String() string { return string(k.accepted()) }
+func (k sinkBytes) Len() int       { return len(k.accepted()) }
+
+type sinkSW struct{ *sink }
+
+func (k sinkSW) WriteString(x string) (int, error) { return k.Write([]byte(x)) }
+
+type sinkRF struct{ *sink }
+
+func (k sinkRF) ReadFrom(r io.Reader) (int64, error) {
+	b, err := io.ReadAll(r)
+	if err != nil {
+		return 0, err
+	}
+	n, err := k.Write(b)
+	return int64(n), err
+}
+
+type sinkRW struct {
+	*sink
+	hdr http.Header
+}
+
+func (k sinkRW) Header() http.Header { return k.hdr }
+func (k sinkRW) WriteHeader(int)     {}
+
+type sinkAll struct {
+	sinkBytes
+	hdr http.Header
+}
+
+func (k sinkAll) WriteString(x string) (int, error)   { return k.Write([]byte(x)) }
+func (k sinkAll) ReadFrom(r io.Reader) (int64, error) { return sinkRF{k.sink}.ReadFrom(r) }
+func (k sinkAll) WriteTo(w io.Writer) (int64, error) {
+	n, err := w.Write(k.accepted())
+	return int64(n), err
+}
+func (k sinkAll) Header() http.Header { return k.hdr }
+func (k sinkAll) WriteHeader(int)     {}
+func (k sinkAll) Cap() int            { return 1 << 20 }
+func (k sinkAll) Reset()              {}
+
+func shaped(k *sink, shape string) io.Writer {
+	switch shape {
+	case "bytes":
+		return sinkBytes{k}
+	case "stringwriter":
+		return sinkSW{k}
+	case "readfrom":
+		return sinkRF{k}
+	case "response":
+		return sinkRW{k, http.Header{}}
+	case "all":
+		return sinkAll{sinkBytes{k}, http.Header{}}
+	}
+	return k
 }
 
 type source struct {
@@ -543,7 +623,7 @@ func runSession(c Case) (*sess, *sink, *source, Session) {
 	body := func() {
 		switch c.Mode {
 		case "writer":
-			wc := m.Writer(c.MT, k)
+			wc := m.Writer(c.MT, shaped(k, c.WShape))
 			for _, ch := range split(c.In, c.Chunks) {
 				s.add(Ev{K: "WriteCall", N: len(ch)})
 				n, err := wc.Write(ch)
@@ -693,6 +773,7 @@ func runSession(c Case) (*sess, *sink, *source, Session) {
 				serve()
 			}
 		case "bytes":
+			preCalls(s, m, c)
 			v := append(make([]byte, 0, len(c.In)+8), c.In...)
 			out, err := m.Bytes(c.MT, v)
 			e := Ev{K: "Ret", N: len(out), E: s.class(err), T: text(err), C: 0}
@@ -704,6 +785,7 @@ func runSession(c Case) (*sess, *sink, *source, Session) {
 			}
 			s.add(e)
 		case "string":
+			preCalls(s, m, c)
 			out, err := m.String(c.MT, string(c.In))
 			e := Ev{K: "Ret", N: len(out), E: s.class(err), T: text(err)}
 			if err == nil {
@@ -714,7 +796,7 @@ func runSession(c Case) (*sess, *sink, *source, Session) {
 			}
 			s.add(e)
 		case "plain":
-			err := m.Minify(c.MT, k, src)
+			err := m.Minify(c.MT, shaped(k, c.WShape), src)
 			s.add(Ev{K: "Ret", E: s.class(err), T: text(err)})
 		default:
 			lib.Fatal("unknown mode %q", c.Mode)
@@ -747,6 +829,19 @@ func runSession(c Case) (*sess, *sink, *source, Session) {
 	return s, k, src, S
 }
 
+// preCalls: the helper calls that precede the judged one (a helper must not carry anything over from an earlier call)
+func preCalls(s *sess, m *minify.M, c Case) {
+	for _, p := range c.Pre {
+		if p.Mode == "string" {
+			out, err := m.String(p.MT, string(p.In))
+			s.add(Ev{K: "PreRet", N: len(out), E: s.class(err), T: text(err)})
+		} else {
+			out, err := m.Bytes(p.MT, append(make([]byte, 0, len(p.In)+8), p.In...))
+			s.add(Ev{K: "PreRet", N: len(out), E: s.class(err), T: text(err)})
+		}
+	}
+}
+
 func hook(ev string, id interface{}, err error) {
 	s, _ := current.Load().(*sess)
 	if s == nil {
@@ -768,7 +863,7 @@ func hook(ev string, id interface{}, err error) {
 
 // summarise one session into the flat fault record of C14
 func summarise(c Case, s *sess, k *sink, src *source, S Session) Fault {
-	f := Fault{ID: c.ID, CID: c.ID, Mode: c.Mode, MT: c.MT, InN: len(c.In), SF: c.SF, Short: c.Short, SErr: c.SErr, FF: c.FF,
+	f := Fault{ID: c.ID, CID: c.ID, Mode: c.Mode, MT: c.MT, InN: len(c.In), SF: c.SF, Short: c.Short, SErr: c.SErr, FF: c.FF, WShape: c.WShape,
 		Chunks: c.Chunks, RHit: src.hit, WHit: k.hit, NReads: src.reads, NWrites: k.calls, Res: []string{}, Ret: "none",
 		DelN: k.n, DelH: hx(k.h), WantN: S.Want.N, WantH: S.Want.H, WantE: S.Want.E, Blocked: s.blocked}
 	if f.Chunks == nil {
